@@ -3,13 +3,14 @@
 from __future__ import annotations
 
 import ast
+import re
 
 from ..connectmodel import points, run_point_states
 from ..execmodel import ExecHooks, node, run_execute
 from ..interp import explore
 from ..model import norm
 from ..pipeline import run_pipeline_on, stages
-from ..values import Const, EnumV, NodeV, Obj, Seq, Str, Sym, tagof
+from ..values import Const, EnumV, Lst, NodeV, Obj, Seq, Str, Sym, Tup, tagof
 
 EXPLANATION = (
     "End-to-end width map: every Snowflake column type the parser can emit is pushed, as an abstract DataType node, "
@@ -24,7 +25,9 @@ EXPLANATION = (
 RULE_TEXT = (
     "C01.a pipeline(T) then generator map in the allowed set of DuckDB types for each declared type T; C01.b SET "
     "TimeZone='UTC' on every connect path; C01.c _insert_df template/encoding/count; C01.d every exploded statement is "
-    "transformed before it is executed."
+    "transformed before it is executed; C01.c2 write_pandas target == <database>.<schema>.<table> from its arguments; "
+    "C01.c3 abstract frames as row intervals: for n in 0..6 x chunk_size in {None,1,2,3,4,7} the inserted intervals "
+    "partition [0,n) and the reported count is n; C01.e/f = C08.a/b/d; C01.g CLONE wiring (target, source)."
 )
 TRUSTED = ["CPython ast", "sqlglot duckdb generator TYPE_MAPPING (read from source)", "Snowflake documented storage widths",
            "DuckDB type widths: REAL 32-bit, DOUBLE 64-bit, TINYINT<SMALLINT<INTEGER<BIGINT<HUGEINT<=DECIMAL(38,0), TIMESTAMP us"]
@@ -211,6 +214,105 @@ def rule_pandas_target(ctx):
             break
 
 
+class FrameHooks(ExecHooks):
+    """write_pandas on a frame of n rows: frames are abstract row intervals [lo, hi) of the caller's frame; DuckDB's
+    replacement scan resolves the table name of `SELECT * FROM <name>` to the Python local of that name in the frame of
+    the function that calls execute."""
+
+    def __init__(self):
+        super().__init__(None)
+        self.inserted = []  # (lo, hi) per INSERT, or None when the source is not a modelled frame
+
+    @staticmethod
+    def frame(lo, hi, name="df"):
+        return Obj(name, kind="df", __len__=Const(hi - lo), rows=Tup([Const(lo), Const(hi)]))
+
+    def obj_method(self, I, recv, name, args, kwargs, site):
+        if recv.kind == "df" and name in ("copy", "reset_index"):
+            lo, hi = (x.v for x in recv.attrs["rows"].items)
+            return self.frame(lo, hi, recv.name + "'")
+        if recv.kind == "df" and name == "select_dtypes":
+            return Obj("no_object_columns", kind="cols", columns=Lst([]))  # the modelled frame has no dict/list cells
+        return NotImplemented
+
+    def subscript(self, I, v, lo, hi, idx, site):
+        base = v
+        if isinstance(v, Sym) and v.origin and v.origin[0] == "attr" and v.origin[2] in ("iloc", "loc"):
+            base = v.origin[1]
+        if not (isinstance(base, Obj) and base.kind == "df" and idx is None):
+            return NotImplemented
+        if not all(x is None or (isinstance(x, Const) and isinstance(x.v, int)) for x in (lo, hi)):
+            return NotImplemented
+        b0, b1 = (x.v for x in base.attrs["rows"].items)
+        r = range(b1 - b0)[(lo.v if lo else None):(hi.v if hi else None)]
+        return self.frame(b0 + r.start, b0 + max(r.stop, r.start), base.name + "[:]")
+
+    def engine(self, I, obj, method, args, kwargs, site):
+        if method == "execute" and args:
+            txt = args[0].text() if isinstance(args[0], Str) else (args[0].v if isinstance(args[0], Const) else "")
+            m = re.search(r"SELECT\s+\*\s+FROM\s+(\w+)", str(txt), re.I)
+            if str(txt).lstrip().upper().startswith("INSERT") and m:
+                src = I.envstack[-1].lookup(m.group(1)) if I.envstack else None
+                rows = tuple(x.v for x in src.attrs["rows"].items) if isinstance(src, Obj) and src.kind == "df" else None
+                self.inserted.append(rows)
+                I.effect("frame-insert", rows, site)
+        if method == "fetchall" and self.inserted and self.inserted[-1] is not None:
+            super().engine(I, obj, method, args, kwargs, site)
+            return Lst([Tup([Const(self.inserted[-1][1] - self.inserted[-1][0])])])
+        return super().engine(I, obj, method, args, kwargs, site)
+
+
+def rule_pandas_whole_frame(ctx):
+    """C01.c3: write_pandas inserts every row of the frame exactly once, whatever chunk_size is, and reports that many rows.
+    Bounded: frames of 0..6 rows x chunk_size in {None, 1, 2, 3, 4, 7} (abstract frames are row intervals)."""
+    prog = ctx.prog
+    m = prog.mod("pandas_tools")
+    fn = prog.fn("pandas_tools", "write_pandas")
+    loc = m.loc(fn)
+    n_eval = 0
+    for n in (0, 1, 2, 3, 5, 6):
+        for c in (None, 1, 2, 3, 4, 7):
+            hooks = []
+
+            def fac():
+                h = FrameHooks()
+                hooks.append(h)
+                return h
+
+            def run(I, n=n, c=c):
+                from ..execmodel import make_session
+                duck, conn, cur = make_session()
+                return I.call(I.global_lookup("pandas_tools", "write_pandas"), [conn, FrameHooks.frame(0, n), Sym("TABLE_NAME", typ="str", truthy=True)],
+                              {"chunk_size": Const(c)}, None)
+
+            for p, h in zip(explore(prog, fac, run, max_paths=64), hooks):
+                n_eval += 1
+                what = f"write_pandas(frame of {n} rows, chunk_size={c})"
+                if p.outcome != "return":
+                    ok, why = False, f"raises {p.value.cls}"
+                elif any(r is None for r in h.inserted):
+                    ctx.ob("C01.c3", f"{what}: inserted frames are row ranges of the caller's frame", None, loc, "source frame not modelled")
+                    continue
+                else:
+                    covered, pos, why = True, 0, ""
+                    for lo, hi in h.inserted:
+                        if lo != pos:
+                            covered, why = False, f"inserts rows {h.inserted} of {n}"
+                            break
+                        pos = hi
+                    if covered and pos != n:
+                        covered, why = False, f"inserts rows {h.inserted or 'none'} of {n}"
+                    cnt = p.value.items[2] if isinstance(p.value, Tup) and len(p.value.items) > 2 else None
+                    if covered and h.inserted and not (isinstance(cnt, Const) and cnt.v == n):
+                        covered, why = False, f"reports {tagof(cnt)} rows for {n} inserted"
+                    ok = covered
+                ctx.ob("C01.c3", f"{what}: every row inserted exactly once and counted", ok, loc, "" if ok else why)
+                if not ok:
+                    ctx.violation("C01.c3", "pandas_tools", "write_pandas", f"rows lost or repeated when chunk_size={c}", loc,
+                                  f"{what} {why}: rows of the frame are lost, repeated or miscounted")
+    ctx.floor("C01.c3 frame x chunk_size evaluations", n_eval, 30)
+
+
 def rule_transformed_before_executed(ctx):
     prog = ctx.prog
     n = 0
@@ -252,5 +354,6 @@ RULES = [
     ("C01.b", rule_utc, ("quick", "thorough")),
     ("C01.c", rule_pandas, ("quick", "thorough")),
     ("C01.c2", rule_pandas_target, ("quick", "thorough")),
+    ("C01.c3", rule_pandas_whole_frame, ("quick", "thorough")),
     ("C01.d", rule_transformed_before_executed, ("quick", "thorough")),
 ]
